@@ -144,17 +144,22 @@ def build(G, g):
         return dists[g[1]]
     if t == "fn":
         body = g[1]
-        calls = []
+        calls, cterms = [], []
         b = body
         while b[0] == "call":
             calls.append((b[1], build(G, b[2]), b[3]))
+            cterms.append(b[2])
             b = b[4]
         ret = b[1]
 
         def f(*args):
             env = list(args)
-            for addr, callee, es in calls:
+            for (addr, callee, es), cterm in zip(calls, cterms):
                 vals = [ev(e, env, jnp) for e in es]
+                if cterm[0] == "cond" or (cterm[0] == "vmap" and cterm[1][0] == "cond"):
+                    # Cond wants a boolean check; the term language encodes it as "non-zero" (Model: Val.truthy)
+                    if jnp.asarray(vals[0]).dtype != jnp.bool_:
+                        vals[0] = jnp.asarray(vals[0]) != 0
                 env.append(callee(*vals) @ addr)
             return ev(ret, env, jnp)
 
